@@ -206,8 +206,8 @@ theorem drain_ldb_phase (b : Bucket) : ∀ (todo : List (Bytes × Bytes)) (fuel 
     stops – exactly the layering of levelIterator / batchIterator in leveldb.go. -/
 theorem iter_write_shape (tx : Tx) (hw : tx.readOnly = false) (b : Bucket) (st l : Bytes) :
     let it := b.newIterator tx st l
-    let s' := b.innerKeyForIterator st
-    let l' := if l.length == 0 then bytesPrefixLimit (b.innerKeyForIterator l) else some (b.innerKeyForIterator l)
+    let s' := (b.iterBounds st l).1
+    let l' := (b.iterBounds st l).2
     let inR : Bytes → Bool := fun k => ble s' k && (match l' with | none => false | some x => blt k x)
     runScript b it [.all] =
       (tx.db.range s' l').map (yielded b.pathLen) ++
